@@ -25,7 +25,9 @@
   * `walk_layout_mixed_x86_partial` — the x86 part of `walk_layout_mixed`: per-frame alternation of
     STACK WIN frames, frame-pointer frames and scanned frames (incl. the x86 scanner's `%ebp`
     recovery), any order, any depth. PARTIAL with respect to `walk_layout_mixed`: x86 only, and
-    frames found through canonical STACK CFI records are excluded (`techOK`).
+    frames found through canonical STACK CFI records are excluded (`techOK`). (The full statement,
+    with STACK CFI frames and for every context kind, is `walk_layout_mixed` / `walk_layout_mixed_x86`
+    in `MdProofs/C04Mixed.lean`.)
   * `FrameIs.spec` — what "one frame per generated call with …" means, read off a frame.
 
   Evaluation of the programs is C07's (`MdModel.Win`, theorems of `MdProofs/C07.lean` reused:
